@@ -3,6 +3,7 @@
 # as found in the LICENSE.txt file.
 from __future__ import annotations
 
+import threading
 from typing import TYPE_CHECKING, Final, final
 
 from .._i_date_time_zone_provider import IDateTimeZoneProvider
@@ -52,6 +53,7 @@ class DateTimeZoneCache(IDateTimeZoneProvider):
         :param source: The ``IDateTimeZoneSource`` for this provider.
         :raises InvalidTimeZoneSourceError: ``source`` violates its contract.
         """
+        self.__access_lock: Final[threading.Lock] = threading.Lock()
         self.__source: Final[IDateTimeZoneSource] = _Preconditions._check_not_null(source, "source")
 
         self.__version_id: Final[str] = source.version_id
@@ -86,12 +88,14 @@ class DateTimeZoneCache(IDateTimeZoneProvider):
         if zone_id not in self.__time_zone_map:
             return None
 
-        if (zone := self.__time_zone_map.get(zone_id)) is None:
-            if (zone := self.__source.for_id(zone_id)) is None:
-                raise InvalidDateTimeZoneSourceError(
-                    f"Time zone {zone_id} is supported by source {self.version_id} but not returned"
-                )
-            self.__time_zone_map[zone_id] = zone
+        # Fetching from the source and publishing the zone must be atomic: all callers get the same instance.
+        with self.__access_lock:
+            if (zone := self.__time_zone_map.get(zone_id)) is None:
+                if (zone := self.__source.for_id(zone_id)) is None:
+                    raise InvalidDateTimeZoneSourceError(
+                        f"Time zone {zone_id} is supported by source {self.version_id} but not returned"
+                    )
+                self.__time_zone_map[zone_id] = zone
 
         return zone
 
